@@ -497,6 +497,29 @@ def vcs_cases(tier, rng, out):
         else: out.r("vcs", [kind, X(u)])
         out.add("vcs", "p", [hexs(kind), hexs(m)])
 
+# ---------------------------------------------------------------- the modelled std externals, code point by code point
+def unicode_cases(tier, rng, out):
+    """char::is_whitespace (through split_whitespace and trim) and str::to_lowercase (through Urgency) for every
+    scalar value (thorough) or every scalar value below U+3100 plus a sample (quick)"""
+    if tier == "thorough":
+        cps = [c for c in range(0x110000) if not (0xD800 <= c <= 0xDFFF)]
+    else:
+        cps = list(range(0, 0x3100)) + [rng.randrange(0x3100, 0x110000) for _ in range(2000)]
+        cps = [c for c in cps if not (0xD800 <= c <= 0xDFFF)]
+    kws = list(enum_info("urgency")["keywords"].values()) or ["low"]
+    for c in cps:
+        ch = chr(c)
+        out.p("md5", "a" + ch + "1" + ch + "f")          # three tokens iff ch is White_Space
+        out.p("pvcs", ch + "u" + ch)                      # trim
+        k = kws[c % len(kws)]
+        i = (c // len(kws)) % len(k)
+        out.p("urgency", k[:i] + ch + k[i+1:])           # accepted iff to_lowercase(ch) is that letter
+        if ch.lower() != ch or ch.upper() != ch:           # cased characters: against every letter of every keyword
+            for kw in kws:
+                for j in range(len(kw)):
+                    if kw[j] not in kw[:j]:
+                        out.p("urgency", kw[:j] + ch + kw[j+1:])
+
 def codec_cases(tier, rng, prefix="k"):
     out = Cases(prefix)
     enum_cases(tier, rng, out)
@@ -505,4 +528,5 @@ def codec_cases(tier, rng, prefix="k"):
     ple_cases(tier, rng, out)
     open_cases(tier, rng, out)
     vcs_cases(tier, rng, out)
+    unicode_cases(tier, rng, out)
     return out.cases
